@@ -111,7 +111,6 @@ fn call_expr(sh: &Shader, f: usize) -> String {
 }
 
 fn render_stmts(sh: &Shader, stmts: &[Stmt], ind: usize, ctx: &mut Ctx, out: &mut String, in_value_fn: bool) {
-    let in_value_fn_here = in_value_fn;
     let pad = "    ".repeat(ind);
     for s in stmts {
         match s {
